@@ -151,6 +151,56 @@ METHODS["seed"] = "scalar"
 METHODS["where"] = "alloc"
 METHODS["astype"] = "astype"
 
+# ---------------------------------------------------------------------------------------------------
+# wrapper level: a raster object has three components -- cells (`data`), the memory of its non-index
+# coordinate variables (`coords`) and its attrs dict (`attrs`).  Every xarray constructor / copy primitive is a
+# row (data, coords, attrs) of modes:
+#   fresh    built anew (the source, if any, is only read)
+#   deep     a copy of the source component in memory of its own
+#   shallow  the source component itself (shared memory)
+#   maybe    shared or copied, decided at run time
+# The table is emitted into Gen/BufProgs.lean (`primTable`) and every row is probed on the real xarray by
+# harness/corr_C10.py on every run.
+WPRIMS = {
+    "DataArray": ("shallow", "deep", "deep"),             # xr.DataArray(data, coords=…, dims=…, attrs=…)
+    "copy(deep)": ("deep", "deep", "deep"),               # x.copy() / x.copy(deep=True) / copy.deepcopy(x)
+    "copy(shallow)": ("shallow", "shallow", "deep"),      # x.copy(deep=False) / copy.copy(x)
+    "copy(deep,data)": ("shallow", "deep", "deep"),       # x.copy(deep=True, data=a)
+    "copy(shallow,data)": ("shallow", "shallow", "deep"),  # x.copy(deep=False, data=a)
+    "copy(?)": ("maybe", "maybe", "deep"),                # x.copy(deep=<not a literal>)
+    "astype": ("deep", "shallow", "deep"),                # x.astype(t)
+    "astype(nocopy)": ("maybe", "shallow", "deep"),       # x.astype(t, copy=False)
+    "arith": ("fresh", "shallow", "deep"),                # x * 2, -x, x > 0, np.sqrt(x), x.where(c), x.clip(…), x.max()
+    "viewlike": ("maybe", "maybe", "maybe"),              # x.T, x.isel(…), x.rename(…), x.assign_coords(…), x.to_dataset():
+    #                                                       the same Variable object (attrs dict included) or a view of it
+    "like": ("fresh", "deep", "deep"),                    # xr.zeros_like(x) …
+    "opaque": ("shallow", "shallow", "shallow"),          # a value the translator knows nothing about: any component
+    #                                                       may be any part of what it was made from
+}
+MODE_LEAN = {"fresh": ".fresh", "deep": ".deep", "shallow": ".shallow", "maybe": ".maybe"}
+# xarray methods by name (receiver not known to be a bare ndarray)
+XMETHODS = {}
+for _n in """where clip round fillna isnull notnull cumsum cumprod rank min max sum mean std var prod median quantile
+count argmin argmax idxmin idxmax interp interp_like reindex reindex_like ffill bfill dot
+searchsorted argsort all any dropna isin combine_first cumulative_integrate differentiate integrate drop_duplicates
+drop_attrs""".split():
+    XMETHODS[_n] = "arith"
+for _n in """transpose squeeze isel sel rename set_index reset_index drop drop_vars drop_sel drop_isel assign_coords
+assign_attrs expand_dims stack unstack chunk unify_chunks compute persist load to_dataset to_array to_dataarray head tail
+thin swap_dims reset_coords set_coords pipe as_numpy sortby broadcast_like diff shift roll conj conjugate pad query
+drop_encoding reset_encoding drop_indexes reorder_levels set_xindex""".split():
+    XMETHODS[_n] = "viewlike"
+# numpy functions that hand a DataArray back when they are given one (ufuncs and functions that dispatch to the
+# method of the same name); probed by harness/corr_C10.py
+NP_XR = set("""abs absolute add all amax amin any arccos arcsin arctan arctan2 argsort around cbrt ceil clip cos cosh
+cumprod cumsum deg2rad degrees divide exp expm1 fabs floor floor_divide fmax fmin hypot isfinite isinf isnan log log10
+log1p log2 logical_and logical_not logical_or logical_xor max maximum mean min minimum mod multiply negative nonzero
+power prod rad2deg radians reciprocal rint round sign sin sinh sqrt square std subtract sum tan tanh true_divide trunc
+var imag real array_split flip hsplit rollaxis split squeeze vsplit transpose swapaxes moveaxis ptp argmin argmax
+fliplr flipud rot90 expand_dims""".split())
+# attributes of a DataArray that are the same object seen differently
+XATTR_SAME = {"T", "real", "imag", "loc", "iloc", "flat", "variable", "str", "dt"}
+
 # attributes: which hold no array (scalar), which expose the receiver's memory (view)
 ATTR_SCALAR = {"shape", "ndim", "size", "dtype", "dims", "name", "chunks", "nbytes", "itemsize", "strides",
                "flags", "sizes", "chunksizes", "type", "kind", "__name__"}
@@ -475,6 +525,11 @@ class Translator:
         #                        Assumption (documented): a load with a *computed* key never hits an entry that was
         #                        stored under a *literal string* key of the same dict.
         self.sameobj = {}      # var -> index of the input object it *is* (plain name / parameter passing)
+        self.objs = {}         # var -> (coords slot, attrs slot): variables that may hold a raster object; the
+        #                        variable itself stands for the cells.  May-set, only grows.
+        self.slotvars = set()  # the slot variables: they hold bare memory, never an object
+        self.nda = set()       # must-flag: vars that certainly hold a bare ndarray / python value, not an xarray object
+        self.wused = set()     # rows of WPRIMS used by this entry
         self.blocks = [[]]
         self.stack = []        # FunctionDef nodes being inlined
         self.unclassified = set()
@@ -513,6 +568,8 @@ class Translator:
             if v[1] in self.elems:
                 e = self.elems[v[1]]
                 return [v[1], e] + [f for (ee, _), f in self.fields.items() if ee == e]
+            if v[1] in self.objs:
+                return [v[1]] + list(self.objs[v[1]])
             return [v[1]]
         if v[0] == "tup":
             return [x for e in v[1] for x in self.vars_of(e)]
@@ -551,6 +608,7 @@ class Translator:
     def fresh(self, name="t", pyc=False, isarr=False):
         t = self.new(name)
         self.emit("alloc", t)
+        self.nda.add(t)
         if pyc:
             self.kind[t] = "pyc"
         if isarr:
@@ -558,17 +616,83 @@ class Translator:
         return ("var", t)
 
     def flags(self):
-        return (set(self.isarr), set(self.oned), dict(self.sameobj))
+        return (set(self.isarr), set(self.oned), dict(self.sameobj), set(self.nda))
 
     def set_flags(self, f):
-        self.isarr, self.oned, self.sameobj = set(f[0]), set(f[1]), dict(f[2])
+        self.isarr, self.oned, self.sameobj, self.nda = set(f[0]), set(f[1]), dict(f[2]), set(f[3])
 
     @staticmethod
     def flags_join(a, b):
-        """must-flags (isarr, oned) hold after a join only if they hold on both paths; `sameobj` (may) on either"""
+        """must-flags (isarr, oned, nda) hold after a join only if they hold on both paths; `sameobj` (may) on either"""
         so = dict(b[2])
         so.update(a[2])
-        return (a[0] & b[0], a[1] & b[1], so)
+        return (a[0] & b[0], a[1] & b[1], so, a[3] & b[3])
+
+    # ---- wrapper level
+    def comps_of(self, v):
+        """the (coords, attrs) slot variables of `v`, created on first use"""
+        if v not in self.objs:
+            c = self.new(self.names[v] + ".coords")
+            a = self.new(self.names[v] + ".attrs")
+            self.objs[v] = (c, a)
+            self.slotvars.update((c, a))
+        return self.objs[v]
+
+    def comp(self, v, which):
+        """the variable standing for component `which` (0 coords, 1 attrs) of `v`; an opaque value is its own
+        component"""
+        return self.objs[v][which] if v in self.objs else v
+
+    def is_nda(self, v):
+        return v in self.nda or v in self.slotvars or v in self.cont
+
+    def xr_operands(self, vals):
+        """the variables among `vals` that may hold an xarray object"""
+        out = []
+        for v in vals:
+            if v[0] == "star":
+                v = v[1]
+            if v[0] == "var" and not self.is_nda(v[1]) and v[1] not in out:
+                out.append(v[1])
+        return out
+
+    def join_vars(self, srcs, name):
+        """one variable that may point to whatever any of `srcs` points to (None when there is none)"""
+        srcs = list(dict.fromkeys(srcs))
+        if not srcs:
+            return None
+        if len(srcs) == 1:
+            return srcs[0]
+        t = self.new(name)
+        for i, x in enumerate(srcs):
+            if i == 0:
+                self.emit("view", t, x)
+            else:
+                self.weak_view(t, x)
+        return t
+
+    def build(self, prim, name, sd, sc, sa):
+        """a new object made by the wrapper primitive `prim` from the sources (variables or None)"""
+        t = self.new(name)
+        c, a = self.comps_of(t)
+        self.emit("build", prim, (t, c, a), (sd, sc, sa))
+        self.wused.add(prim)
+        return ("var", t)
+
+    def build_from(self, prim, name, operands, data_src="first"):
+        """`prim` applied to the objects `operands`: coords / attrs come from all of them, cells from the first"""
+        sc = self.join_vars([self.comp(x, 0) for x in operands], name + ".c")
+        sa = self.join_vars([self.comp(x, 1) for x in operands], name + ".a")
+        sd = operands[0] if data_src == "first" and operands else data_src if isinstance(data_src, int) else None
+        return self.build(prim, name, sd, sc, sa)
+
+    def opaque(self, t):
+        """`t` holds a value the translator knows nothing about: every component of it is `t` itself"""
+        if t in self.objs:
+            c, a = self.objs[t]
+            self.emit("view", c, t)
+            self.emit("view", a, t)
+        self.nda.discard(t)
 
     def elems_of(self, c):
         if c not in self.elems:
@@ -591,6 +715,24 @@ class Translator:
         if d == s:
             return
         self.emit("view", d, s)
+        # wrapper level: the components follow the object
+        if s in self.objs:
+            sc, sa = self.objs[s]
+            dc, da = self.comps_of(d)
+            self.emit("view", dc, sc)
+            self.emit("view", da, sa)
+        elif d in self.objs:
+            dc, da = self.objs[d]
+            if self.is_nda(s):
+                self.emit("alloc", dc)
+                self.emit("alloc", da)
+            else:
+                self.emit("view", dc, s)
+                self.emit("view", da, s)
+        if self.is_nda(s):
+            self.nda.add(d)
+        else:
+            self.nda.discard(d)
         if self.kind.get(s) == "pyc":
             self.kind[d] = "pyc"
         if s in self.cont:
@@ -786,16 +928,30 @@ class Eval(Translator):
             return self.eval(scope, e.value)
         if isinstance(e, (ast.UnaryOp,)):
             v = self.eval(scope, e.operand)
-            return SC if not self.vars_of(v) else self.fresh("un", isarr=isinstance(e.op, ast.Invert) and self.is_mask(scope, e))
+            if not self.vars_of(v):
+                return SC
+            xs = self.xr_operands([v])
+            if xs:      # arithmetic on a raster object: new cells, the operand's coordinates
+                r = self.build_from("arith", "un", xs, data_src=None)
+                if isinstance(e.op, ast.Invert) and self.is_mask(scope, e):
+                    self.isarr.add(r[1])
+                return r
+            return self.fresh("un", isarr=isinstance(e.op, ast.Invert) and self.is_mask(scope, e))
         if isinstance(e, ast.BinOp):
             a, b = self.eval(scope, e.left), self.eval(scope, e.right)
             if not self.vars_of(a) and not self.vars_of(b):
                 return SC
+            xs = self.xr_operands([a, b])
+            if xs:
+                return self.build_from("arith", "bin", xs, data_src=None)
             return self.fresh("bin")
         if isinstance(e, ast.Compare):
             vs = [self.eval(scope, e.left)] + [self.eval(scope, c) for c in e.comparators]
             if not any(self.vars_of(v) for v in vs) or all(isinstance(o, (ast.Is, ast.IsNot, ast.In, ast.NotIn)) for o in e.ops):
                 return SC
+            xs = self.xr_operands(vs)
+            if xs:
+                return self.build_from("arith", "cmp", xs, data_src=None)
             return self.fresh("cmp")
         if isinstance(e, ast.BoolOp):
             vs = [self.eval(scope, v) for v in e.values]
@@ -867,7 +1023,26 @@ class Eval(Translator):
         if e.attr in ATTR_SCALAR or base == SC:
             return SC
         if base[0] == "var":
-            return base           # .data / .values / .T / .coords / .attrs / .x …: the same memory
+            b = base[1]
+            if self.is_nda(b):
+                return base       # .T / .real / .flat … of a bare array: the same memory
+            if e.attr in ("data", "values"):
+                t = self.new(self.names[b] + "." + e.attr)       # the cells, as a bare array
+                self.emit("view", t, b)
+                self.nda.add(t)
+                for fl in (self.isarr, self.oned):
+                    if b in fl:
+                        fl.add(t)
+                if self.kind.get(b) == "pyc":
+                    self.kind[t] = "pyc"
+                return ("var", t)
+            if e.attr == "attrs":
+                return ("var", self.comp(b, 1))
+            if e.attr in ("coords", "indexes", "xindexes", "dims_coords"):
+                return ("var", self.comp(b, 0))
+            if e.attr in XATTR_SAME or b not in self.objs:
+                return base
+            return self.temp_join([base], self.names[b] + "." + e.attr)     # .x / .lon / .encoding …: any component
         if base[0] == "tup":
             return self.temp_join([base], "attr")
         if base[0] == "glob":
@@ -908,6 +1083,10 @@ class Eval(Translator):
                 return ("var", self.elems_of(b))
             if b in self.oned and len(parts) == 1 and not isinstance(idx, ast.Slice) and scope.scalars.scalar(idx):
                 return SC            # one scalar index into a 1-D array: an element, not a view
+            if b in self.objs and not self.is_nda(b) and not advanced and not isinstance(idx, (ast.Slice, ast.Tuple)) \
+                    and not (isinstance(idx, ast.Constant) and isinstance(idx.value, int)) and iv == SC:
+                # obj['x'] / obj[name]: a coordinate or a variable of the object looked up by name
+                return self.temp_join([base], self.names[b] + "[name]")
             if advanced and self.kind.get(b) != "pyc":
                 t = self.new("fancy")
                 self.used.add("mask-index")
@@ -956,6 +1135,7 @@ class Eval(Translator):
             self.emit("write", x)
         t = self.new("ret:" + what)
         self.join_into(t, vals)
+        self.nda.discard(t)
         return ("var", t)
 
     def apply_prim(self, cls, what, args, kwargs, node=None):
@@ -976,6 +1156,13 @@ class Eval(Translator):
                 return SC
             if what == "np.vectorize":
                 return ("fn", FuncRef("vectorized", name="np.vectorize"))
+            if what.startswith("np.") and what[3:] in NP_XR:
+                xs = self.xr_operands(allv)
+                if xs:      # a ufunc / a function dispatching to the method, applied to a raster object
+                    r = self.build_from("arith", what.split(".")[-1], xs, data_src=None)
+                    if what in ISARR:
+                        self.isarr.add(r[1])
+                    return r
             return self.fresh(what.split(".")[-1], isarr=what in ISARR)
         first = vals[0] if vals else (kwargs.get("data") or kwargs.get("a") or kwargs.get("x") or SC)
         if cls in ("copy", "view", "mview"):
@@ -983,12 +1170,22 @@ class Eval(Translator):
                 cls = "mview"
             if first == SC:
                 return SC if cls != "copy" else self.fresh(what.split(".")[-1])
-            src = self.temp_join([first], "arg")
+            if what in ("copy.copy", "copy.deepcopy") and self.xr_operands([first]):
+                return self.build_from("copy(shallow)" if what == "copy.copy" else "copy(deep)", what.split(".")[-1],
+                                       self.xr_operands([first]))
+            if what.startswith("np.") and first[0] == "var" and first[1] not in self.elems:
+                if what[3:] in NP_XR and cls == "view" and self.xr_operands([first]):
+                    return self.build_from("viewlike", what.split(".")[-1], [first[1]])
+                src = first         # numpy sees the cells of a raster object only
+            else:
+                src = self.temp_join([first], "arg")
             if src == SC:
                 return self.fresh(what.split(".")[-1])
             if cls == "view":
                 return src
             t = self.new(what.split(".")[-1])
+            if what.startswith("np."):
+                self.nda.add(t)
             if what == "np.ravel":
                 self.oned.add(t)
             self.emit("copy" if cls == "copy" else "mview", t, src[1])
@@ -1056,8 +1253,22 @@ class Eval(Translator):
             if name in ("nb.jit", "jit", "nb.njit", "ngjit", "delayed"):
                 return args[0] if args else SC
             if name == "xr.DataArray":
-                first = args[0] if args else kwargs.get("data", SC)
-                return self.temp_join([first], "da") if first != SC else self.fresh("da")
+                return self.ctor(args, kwargs)
+            if name in ("xr.zeros_like", "xr.ones_like", "xr.full_like", "xr.empty_like"):
+                xs = self.xr_operands(args[:1] or [kwargs.get("other", SC)])
+                return self.build_from("like", name.split(".")[-1], xs, data_src=None) if xs else self.fresh("like")
+            if name == "xr.Dataset":
+                # a Dataset keeps the variables it is given
+                vals = [a[1] if a[0] == "star" else a for a in args] + list(kwargs.values())
+                res = self.build("like", "dataset", None, None, None)
+                c, a_ = self.objs[res[1]]
+                for x in dict.fromkeys(x for v in vals for x in self.vars_of(self.load_elem(v) if v != SC else SC)):
+                    for d in (res[1], c, a_):
+                        self.weak_view(d, x)
+                return res
+            if name == "xr.where":
+                xs = self.xr_operands(list(args) + list(kwargs.values()))
+                return self.build_from("arith", "where", xs, data_src=None) if xs else self.fresh("where")
             cls = PRIMS.get(name)
             if cls is None and name.split(".")[-1] in ("has_rtx", "has_cuda_and_cupy", "is_cupy_array"):
                 cls = "false"
@@ -1079,6 +1290,69 @@ class Eval(Translator):
             # a callable held in a variable (user callback): conservative
             return self.conservative_call("callback", args, kwargs)
         raise Unsupported(f"call of {fv[0]}")
+
+    def ctor(self, args, kwargs):
+        """xr.DataArray(data, coords=…, dims=…, attrs=…, name=…)"""
+        first = args[0] if args else kwargs.get("data", SC)
+        coords = args[1] if len(args) > 1 else kwargs.get("coords", SC)
+        attrs = args[5] if len(args) > 5 else kwargs.get("attrs", SC)
+        for v in list(args[2:5]) + [kwargs.get("dims", SC), kwargs.get("name", SC)]:
+            pass        # dims / name hold no memory
+        fx = first[1] if first[0] == "var" and first[1] not in self.elems else None
+        if first != SC and fx is None:
+            fx = self.temp_join([first], "da.data")[1]
+        sd = fx
+        # coordinates: the ones given, else the ones the data brings along when it is a raster object itself
+        if coords != SC and self.vars_of(coords):
+            cv = coords[1] if coords[0] == "var" and coords[1] in self.slotvars else self.temp_join([coords], "da.coords")[1]
+            sc = cv
+        elif fx is not None and not self.is_nda(fx):
+            sc = self.comp(fx, 0)
+        else:
+            sc = None
+        if attrs != SC and self.vars_of(attrs):
+            sa = attrs[1] if attrs[0] == "var" and attrs[1] in self.slotvars else self.temp_join([attrs], "da.attrs")[1]
+        elif fx is not None and not self.is_nda(fx):
+            sa = self.comp(fx, 1)
+        else:
+            sa = None
+        return self.build("DataArray", "da", sd, sc, sa)
+
+    def call_xmethod(self, recv, attr, args, kwargs, node):
+        """a method of a value that may be a raster object; None when the method is not an xarray one"""
+        r = recv[1]
+        vals = [a[1] if a[0] == "star" else a for a in args] + list(kwargs.values())
+        if attr == "copy":
+            deep = next((k.value for k in node.keywords if k.arg == "deep"), None) if node is not None else None
+            if deep is None and node is not None and node.args:
+                deep = node.args[0]
+            mode = "deep" if deep is None or (isinstance(deep, ast.Constant) and deep.value is True) else \
+                ("shallow" if isinstance(deep, ast.Constant) and deep.value is False else "?")
+            data = kwargs.get("data", SC)
+            if mode == "?":
+                return self.build_from("copy(?)", "copy", [r])
+            if data != SC and self.vars_of(data):
+                dv = data[1] if data[0] == "var" and data[1] not in self.elems else self.temp_join([data], "copy.data")[1]
+                return self.build_from(f"copy({mode},data)", "copy", [r], data_src=dv)
+            return self.build_from(f"copy({mode})", "copy", [r])
+        if attr == "astype":
+            c = next((k.value for k in node.keywords if k.arg == "copy"), None) if node is not None else None
+            nocopy = not (c is None or (isinstance(c, ast.Constant) and c.value is True))
+            return self.build_from("astype(nocopy)" if nocopy else "astype", "astype", [r])
+        cls = XMETHODS.get(attr)
+        if cls == "arith":
+            return self.build_from("arith", attr, [r] + self.xr_operands(vals), data_src=None)
+        if cls == "viewlike":
+            # assign_coords(lon=other.lon) …: what is handed in may become a coordinate of the result
+            extra = [x for v in vals for x in self.vars_of(v)]
+            res = self.build_from("viewlike", attr, [r])
+            if extra:
+                c, a = self.objs[res[1]]
+                for x in dict.fromkeys(extra):
+                    self.weak_view(c, x)
+                    self.weak_view(a, x)
+            return res
+        return None
 
     def call_method(self, scope, recv, attr, args, kwargs, node):
         vals = [a[1] if a[0] == "star" else a for a in args] + list(kwargs.values())
@@ -1134,6 +1408,10 @@ class Eval(Translator):
             return kwargs["out"]
         if kwargs.get("inplace") is not None:
             self.emit("write", r)
+        if not self.is_nda(r) and self.kind.get(r) != "pyc":
+            xres = self.call_xmethod(recv, attr, args, kwargs, node)
+            if xres is not None:
+                return xres
         if cls == "astype":
             c = next((k.value for k in node.keywords if k.arg == "copy"), None)
             t = self.new("astype")
@@ -1251,6 +1529,10 @@ class Eval(Translator):
                     self.alias(d, self.mk_container([], "box")[1])
                     return
                 self.emit("alloc", d)
+                if d in self.objs:
+                    for x in self.objs[d]:
+                        self.emit("alloc", x)
+                self.nda.add(d)
                 self.isarr.discard(d)
                 self.oned.discard(d)
                 self.sameobj.pop(d, None)
@@ -1270,7 +1552,9 @@ class Eval(Translator):
         if isinstance(target, ast.Subscript):
             base = self.eval(scope, target.value)
             self.eval(scope, target.slice)
-            self.store_into(base, v, self.const_key(scope, target.slice))
+            sl = target.slice
+            named = isinstance(sl, ast.JoinedStr) or (isinstance(sl, ast.Constant) and isinstance(sl.value, str))
+            self.store_into(base, v, self.const_key(scope, sl), named=named)
             return
         if isinstance(target, ast.Attribute):
             base = self.eval(scope, target.value)
@@ -1282,23 +1566,30 @@ class Eval(Translator):
                 if b in self.sameobj:
                     if target.attr in ("data", "values"):
                         self.rebinds.append((self.sameobj[b], target.attr, ast.unparse(valnode) if valnode else "?"))
+                    elif target.attr in ("attrs", "name", "encoding"):
+                        self.emit("write", self.comp(b, 1))      # attrs / name of the caller's object
+                    elif target.attr in ("coords",):
+                        self.emit("write", self.comp(b, 0))
                     else:
-                        self.emit("write", b)      # coords / attrs / name of the caller's object
+                        for x in self.vars_of(("var", b)):
+                            self.emit("write", x)
                 if target.attr in ("data", "values") and v != SC and self.vars_of(v):
                     src = self.temp_join([v], "newdata")
                     self.emit("view", b, src[1])
                     self.sameobj.pop(b, None)
                 elif v != SC:
+                    # x.attrs = d / x.coords = c: the component may from now on be what was assigned
+                    dst = self.comp(b, 1) if target.attr == "attrs" else self.comp(b, 0) if target.attr == "coords" else b
                     for x in self.vars_of(v):
-                        self.weak_view(b, x)
+                        self.weak_view(dst, x)
             return
         if isinstance(target, ast.Starred):
             self.assign(scope, target.value, v, valnode)
             return
         raise Unsupported(f"assignment target {type(target).__name__}")
 
-    def store_into(self, base, v, key=None):
-        """base[...] = v"""
+    def store_into(self, base, v, key=None, named=False):
+        """base[...] = v; `named`: the index is a string (ds['layer'] = …), not a position"""
         if base == SC or base[0] in ("ext",):
             return
         if base[0] in ("glob", "globitem"):
@@ -1317,6 +1608,16 @@ class Eval(Translator):
             elif self.kind.get(b) == "pyc":
                 for x in self.vars_of(v):
                     self.weak_view(b, x)
+            elif named and not self.is_nda(b) and isinstance(v, tuple) and v[0] == "var" and not self.is_nda(v[1]):
+                # ds[name] = raster: a Dataset keeps the variable it is given, not a copy of it
+                x = v[1]
+                self.weak_view(b, x)
+                if b in self.objs:
+                    self.weak_view(self.objs[b][0], self.comp(x, 0))
+                    self.weak_view(self.objs[b][1], self.comp(x, 1))
+                elif x in self.objs:
+                    for y in self.objs[x]:
+                        self.weak_view(b, y)
 
     # ------------------------------------------------------------------------------- statements
     def static_test(self, scope, t):
@@ -1422,6 +1723,29 @@ class Eval(Translator):
                 return
             self.stmt(scope, st)
 
+    def weak_obj_view(self, r, v):
+        """the object variable `r` may (also) hold the value `v`: component by component when `v` is a variable,
+        every component may be any part of `v` otherwise"""
+        rc, ra = self.comps_of(r)
+        if v[0] == "var" and v[1] not in self.elems:
+            x = v[1]
+            self.weak_view(r, x)
+            if x in self.objs:
+                self.weak_view(rc, self.objs[x][0])
+                self.weak_view(ra, self.objs[x][1])
+            elif not self.is_nda(x):
+                self.weak_view(rc, x)
+                self.weak_view(ra, x)
+            if not self.is_nda(x):
+                self.nda.discard(r)
+        else:
+            for y in self.vars_of(v):
+                self.weak_view(r, y)
+                self.weak_view(rc, y)
+                self.weak_view(ra, y)
+            if self.vars_of(v):
+                self.nda.discard(r)
+
     def do_return(self, scope, st):
         v = self.eval(scope, st.value) if st.value is not None else SC
         if scope.ret_vars is None:
@@ -1429,12 +1753,10 @@ class Eval(Translator):
             return
         if len(scope.ret_vars) > 1 and v[0] == "tup" and len(v[1]) == len(scope.ret_vars):
             for r, x in zip(scope.ret_vars, v[1]):
-                for y in self.vars_of(x):
-                    self.weak_view(r, y)
+                self.weak_obj_view(r, x)
         else:
             for r in scope.ret_vars:
-                for y in self.vars_of(v):
-                    self.weak_view(r, y)
+                self.weak_obj_view(r, v)
         scope.returned_fn = v if v[0] in ("fn", "mapper") else getattr(scope, "returned_fn", None)
 
     def stmt(self, scope, st):
@@ -1465,8 +1787,13 @@ class Eval(Translator):
                 self.store_into(base, v)
             elif isinstance(t, ast.Attribute):
                 base = self.eval(scope, t.value)
-                for b in self.vars_of(base):
-                    self.emit("write", b)
+                if t.attr in ("data", "values") and base[0] == "var":
+                    self.emit("write", base[1])
+                elif t.attr == "attrs" and base[0] == "var":
+                    self.emit("write", self.comp(base[1], 1))
+                else:
+                    for b in self.vars_of(base):
+                        self.emit("write", b)
             else:
                 raise Unsupported("augmented assignment target")
         elif isinstance(st, ast.Expr):
@@ -1659,6 +1986,7 @@ class Calls(Eval):
                 return sc.ret_val if sc.ret_val is not None else SC
             ar = return_arity(fn)
             sc.ret_vars = [self.new(f"{label}.ret{i}") for i in range(ar)]
+            self.nda.update(sc.ret_vars)       # until something that may be a raster object is returned
             self.stmts(sc, fn.body)
             rf = getattr(sc, "returned_fn", None)
             if rf is not None:
@@ -1734,23 +2062,48 @@ def translate_entry(mods, mn, fn, node):
         inputs.append(p.arg)
         kwargs[p.arg] = ("var", v)
         call._plain[p.arg] = True
-    k = len(inputs)
+    np_ = len(inputs)
+    # wrapper level: every parameter is a raster object with three input buffers -- variables 0 … np-1 the cells,
+    # np … 2np-1 the coordinates, 2np … 3np-1 the attrs
+    cvars = [tr.new(p + ".coords") for p in inputs]
+    avars = [tr.new(p + ".attrs") for p in inputs]
+    for i in range(np_):
+        tr.objs[i] = (cvars[i], avars[i])
+        tr.slotvars.update((cvars[i], avars[i]))
+    k = 3 * np_
+    in_names = inputs + [p + ".coords" for p in inputs] + [p + ".attrs" for p in inputs]
     status = "ok"
+
+    def mk_ret():
+        r = tr.new("RETURN")
+        return (r,) + tr.comps_of(r)
     try:
         res = tr.inline(root, FuncRef("def", module=m, node=node, name=fn), [], kwargs, call)
-        ret = tr.new("RETURN")
-        tr.join_into(ret, [res])
+        ret = mk_ret()
+        if res[0] == "var" and res[1] not in tr.elems:
+            x = res[1]
+            tr.emit("view", ret[0], x)
+            if x in tr.objs:
+                tr.emit("view", ret[1], tr.objs[x][0])
+                tr.emit("view", ret[2], tr.objs[x][1])
+            elif not tr.is_nda(x):
+                tr.emit("view", ret[1], x)
+                tr.emit("view", ret[2], x)
+        else:
+            for r in ret:
+                tr.join_into(r, [res])
     except Unsupported as ex:
         status = "unsupported: " + str(ex)
         tr.blocks = [tr.blocks[0]]
         tr.unknown(str(ex))
-        ret = tr.new("RETURN")
+        ret = mk_ret()
     except RecursionError:
         status = "unsupported: recursion"
         tr.blocks = [[("unknown", "recursion")]]
-        ret = tr.new("RETURN")
+        ret = mk_ret()
     items = tr.blocks[0]
-    return dict(module=mn, func=fn, k=k, params=inputs, ret=ret, items=items, status=status, nvars=tr.nvars,
+    return dict(module=mn, func=fn, k=k, nparams=np_, params=in_names, ret=ret, items=items, status=status, nvars=tr.nvars,
+                wused=sorted(tr.wused),
                 names=tr.names, used=sorted(tr.used), unclassified=sorted(tr.unclassified), unknowns=tr.unknowns,
                 rebinds=[(inputs[i], attr, src) for i, attr, src in tr.rebinds],
                 inlined=sorted({f"{a}.{b}" for a, b, _ in tr.inlined}))
@@ -1769,9 +2122,9 @@ def count_ops(items):
 
 
 def slice_items(items, ret):
-    """drop assignments to variables that can influence neither a write nor the returned variable.
+    """drop assignments to variables that can influence neither a write nor the returned variables.
     The taint of every kept variable is the same at every point, so `safe` is unchanged."""
-    rel = {ret}
+    rel = set(ret) if isinstance(ret, (tuple, list)) else {ret}
     edges = []
 
     def scan(its):
@@ -1780,6 +2133,10 @@ def slice_items(items, ret):
                 rel.add(it[1])
             elif it[0] in ("view", "mview"):
                 edges.append((it[1], it[2]))
+            elif it[0] == "build":
+                for d, s_, mode in zip(it[2], it[3], WPRIMS[it[1]]):
+                    if s_ is not None and mode in ("shallow", "maybe"):
+                        edges.append((d, s_))
             elif it[0] == "ite":
                 scan(it[1])
                 scan(it[2])
@@ -1799,6 +2156,9 @@ def slice_items(items, ret):
         for it in its:
             if it[0] in ("alloc", "copy", "view", "mview"):
                 if it[1] in rel:
+                    out.append(it)
+            elif it[0] == "build":
+                if any(d in rel for d in it[2]):
                     out.append(it)
             elif it[0] == "ite":
                 p, q = keep(it[1]), keep(it[2])
@@ -1838,6 +2198,10 @@ class LeanEmitter:
                 out.append(f".op (.write {it[1]})")
             elif k == "unknown":
                 out.append(".op .unknown")
+            elif k == "build":
+                d, srcs = it[2], it[3]
+                opt = lambda x: "none" if x is None else f"(some {x})"
+                out.append(f".op ({prim_lean_name(it[1])}.build ⟨{d[0]}, {d[1]}, {d[2]}⟩ {opt(srcs[0])} {opt(srcs[1])} {opt(srcs[2])})")
             elif k == "ite":
                 out.append(f".ite ({self.block(it[1], ind + 2, depth + 1)}) ({self.block(it[2], ind + 2, depth + 1)})")
             elif k == "loop":
@@ -1870,6 +2234,10 @@ class LeanEmitter:
             self.defs[idx] = f"def {name} : Prog := {body}\n"
             return name
         return "Prog.ofItems [\n" + " " * ind + self.items(items, ind, depth) + "]"
+
+
+def prim_lean_name(name):
+    return "wprim_" + "".join(ch if ch.isalnum() else "_" for ch in name).strip("_").replace("__", "_")
 
 
 def lean_block(items, ind):
@@ -1984,6 +2352,20 @@ class MetaExtractor:
                          dims=self.src(m, fn, kw.get("dims"), sigma, "dims"),
                          attrs=self.src(m, fn, kw.get("attrs"), sigma, "attrs"),
                          name=("absent",) if nm is None else (("param", nm.id) if isinstance(nm, ast.Name) else ("other", ast.unparse(nm))))]
+        if isinstance(r, ast.Call) and isinstance(r.func, ast.Attribute) and r.func.attr == "copy" \
+                and isinstance(r.func.value, ast.Name) and r.func.value.id in sigma \
+                and len(assignments_to(fn, r.func.value.id)) == 0 \
+                and all(k.arg in ("deep", "data") for k in r.keywords) and len(r.args) <= 1:
+            # the input used as a template: `p.copy(deep=…, data=out)` has p's coords, dims and attrs
+            p_ = sigma[r.func.value.id]
+            return [dict(kind="ctor", coords=("input", p_), dims=("input", p_), attrs=("input", p_), name=("absent",))]
+        if isinstance(r, ast.Call) and self.tr.ext_name(m, dotted(r.func)) in ("xr.zeros_like", "xr.ones_like", "xr.full_like",
+                                                                                 "xr.empty_like") \
+                and r.args and isinstance(r.args[0], ast.Name) and r.args[0].id in sigma \
+                and len(assignments_to(fn, r.args[0].id)) == 0:
+            # `xr.zeros_like(p)` (filled afterwards) has p's coords, dims and attrs
+            p_ = sigma[r.args[0].id]
+            return [dict(kind="ctor", coords=("input", p_), dims=("input", p_), attrs=("input", p_), name=("absent",))]
         if isinstance(r, ast.Call) and depth < 4:
             callee, args, kws = None, r.args, r.keywords
             if isinstance(r.func, ast.Name):
@@ -2403,6 +2785,130 @@ def t68_ok_attrs_dict_copy(agg):
     a = dict(agg.attrs)
     a['k'] = 1
     return xr.DataArray(np.zeros(3), attrs=a)
+
+# ---- wrapper level: which components of the result come from which components of the input
+def t70_shallow_copy_template(agg):
+    out = np.zeros(3)
+    result = agg.copy(deep=False, data=out)
+    result.name = 'n'
+    return result
+
+def t71_ok_deep_copy_template(agg):
+    return agg.copy(deep=True, data=np.zeros(3))
+
+def t72_attrs_fallback_alias_store(agg):
+    try:
+        attrs = copy.deepcopy(agg.attrs)
+    except TypeError:
+        attrs = agg.attrs
+    attrs['unit'] = '%'
+    return xr.DataArray(np.zeros(3), coords=agg.coords, dims=agg.dims, attrs=attrs)
+
+def t73_ok_ctor(agg):
+    return xr.DataArray(np.zeros(3), name='n', coords=agg.coords, dims=agg.dims, attrs=agg.attrs)
+
+def t74_arith_keeps_coords(agg):
+    return agg * 2
+
+def t75_astype_keeps_coords(agg):
+    return agg.astype('f4')
+
+def t76_ok_deep_copy_then_arith(agg):
+    c = agg.copy(deep=True)
+    return c * 2
+
+def t77_ok_default_copy_is_deep(agg):
+    return agg.copy(data=np.zeros(3))
+
+def t78_ok_zeros_like(agg):
+    return xr.zeros_like(agg)
+
+def t79_where_keeps_coords(agg):
+    return agg.where(agg > 0)
+
+def t80_ufunc_on_object(agg):
+    return np.sqrt(agg)
+
+def t81_ok_ufunc_on_cells(agg):
+    return xr.DataArray(np.sqrt(agg.data), coords=agg.coords, dims=agg.dims, attrs=agg.attrs)
+
+def t82_to_dataset(agg):
+    return agg.to_dataset(name='a')
+
+def t83_ok_deep_to_dataset(agg):
+    ds = agg.copy(deep=True).to_dataset(name='a')
+    ds['b'] = xr.DataArray(np.zeros(3))
+    return ds
+
+def t84_assign_coords_from_input(agg):
+    out = xr.DataArray(np.zeros(3), dims=agg.dims)
+    return out.assign_coords(lon=agg.coords['lon'])
+
+def t85_copy_deep_flag_unknown(agg, deep=None):
+    return agg.copy(deep=deep, data=np.zeros(3))
+
+def t86_copy_copy(agg):
+    c = copy.copy(agg)
+    return xr.DataArray(np.zeros(3), coords=c.coords, dims=c.dims).assign_coords(band=c.band)
+
+def t87_ok_copy_deepcopy(agg):
+    c = copy.deepcopy(agg)
+    c.attrs['k'] = 1
+    c.coords['lon'].values[0] = 1
+    return c
+
+def t88_shallow_copy_coord_write(agg):
+    c = agg.copy(deep=False)
+    c.coords['lon'].values[0] = 1
+    return xr.DataArray(np.zeros(3))
+
+def t89_ok_shallow_copy_attrs_are_own(agg):
+    c = agg.copy(deep=False, data=np.zeros(3))
+    c.attrs['k'] = 1
+    return xr.DataArray(c.data, coords=agg.coords, dims=agg.dims, attrs=c.attrs)
+
+def t90_attrs_setattr(agg):
+    agg.attrs = dict(agg.attrs, k=1)
+    return xr.DataArray(np.zeros(3))
+
+def t91_name_store(agg):
+    agg.name = 'renamed'
+    return xr.DataArray(np.zeros(3))
+
+def t92_ok_astype_cells_fresh(agg):
+    c = agg.astype('f8')
+    c.data[:] = 0
+    return xr.DataArray(c.data, coords=agg.coords, dims=agg.dims, attrs=agg.attrs)
+
+def t93_transpose_view(agg):
+    return agg.T
+
+def t94_compare_keeps_coords(agg):
+    return agg > 0
+
+def t95_ok_return_helper_ctor(agg, flag=None):
+    if flag:
+        return xr.DataArray(np.zeros(3), coords=agg.coords, dims=agg.dims, attrs=agg.attrs)
+    return xr.DataArray(np.ones(3), coords=agg.coords, dims=agg.dims, attrs=agg.attrs)
+
+def t97_dataset_keeps_what_it_is_given(agg):
+    ds = xr.Dataset()
+    ds['layer'] = agg
+    return ds
+
+def t98_ok_dataset_of_fresh(agg):
+    ds = agg.copy(deep=True).to_dataset(name='a')
+    ds['b'] = xr.DataArray(np.zeros(3), coords=agg.coords, dims=agg.dims, attrs=agg.attrs)
+    return ds
+
+def t99_augassign_attrs(agg):
+    agg.attrs |= {'k': 1}
+    return xr.DataArray(np.zeros(3))
+
+def t96_return_either(agg, flag=None):
+    if flag:
+        return xr.DataArray(np.zeros(3), coords=agg.coords, dims=agg.dims, attrs=agg.attrs)
+    return agg.copy(deep=False, data=np.ones(3))
 '''
 
 
@@ -2428,7 +2934,12 @@ def generate(repo):
            "/-! GENERATED by harness/facts_bufprog.py from /repo's current source -- buffer programs and metadata",
            "    facts of every public NumPy-backend wrapper (helpers and numba kernels inlined). -/",
            "namespace XrsVerif.Gen", "open XrsVerif.BP XrsVerif.Meta", ""]
-    rep = {"entries": {}, "primitive_table": {"functions": len(PRIMS), "methods": len(METHODS)}}
+    rep = {"entries": {}, "primitive_table": {"functions": len(PRIMS), "methods": len(METHODS), "wrapper": len(WPRIMS)}}
+    out.append("/-- the wrapper-level primitive table: how an xarray constructor / copy primitive obtains the cells, the")
+    out.append("    coordinates and the attrs of its result (probed on the real xarray by harness/corr_C10.py on every run) -/")
+    for nm, (md, mc, ma) in WPRIMS.items():
+        out.append(f"def {prim_lean_name(nm)} : WPrim := ⟨{lean_str(nm)}, {MODE_LEAN[md]}, {MODE_LEAN[mc]}, {MODE_LEAN[ma]}⟩")
+    out.append("def primTable : List WPrim := [" + ", ".join(prim_lean_name(nm) for nm in WPRIMS) + "]\n")
     names = []
     for mn, fn, node in public_functions(mods):
         e = translate_entry(mods, mn, fn, node)
@@ -2447,12 +2958,14 @@ def generate(repo):
         out.extend(d for d in reversed(em.defs))
         out.append(f"def prog_{lname} : Prog := {top}\n")
         out.append(f"def entry_{lname} : Entry := {{ name := {lean_str(mn + '.' + fn)}, k := {e['k']}, "
-                   f"params := {str_list(e['params'])}, ret := {e['ret']}, prog := prog_{lname} }}\n")
+                   f"params := {str_list(e['params'])}, ret := ⟨{e['ret'][0]}, {e['ret'][1]}, {e['ret'][2]}⟩, "
+                   f"prog := prog_{lname} }}\n")
         out.append(f"def meta_{lname} : FuncMeta := {{ name := {lean_str(mn + '.' + fn)}, "
                    f"rebinds := {str_list(sorted({r[0] for r in e['rebinds']}))}, "
                    f"returns := [{', '.join(lean_fact(f) for f in facts)}] }}\n")
         rep["entries"][mn + "." + fn] = dict(
-            status=e["status"], k=e["k"], params=e["params"], ret=e["ret"], ops=count_ops(e["items"]), raw_ops=raw_ops,
+            status=e["status"], k=e["k"], nparams=e["nparams"], params=e["params"], ret=list(e["ret"]), wused=e["wused"],
+            ops=count_ops(e["items"]), raw_ops=raw_ops,
             vars=e["nvars"], used=e["used"], unclassified=e["unclassified"], unknowns=e["unknowns"], rebinds=e["rebinds"],
             inlined=e["inlined"], meta=facts)
     st_names = []
@@ -2462,9 +2975,10 @@ def generate(repo):
         top = em.block(e["items"], 2, 0)
         out.extend(d for d in reversed(em.defs))
         out.append(f"def prog_{lname} : Prog := {top}\n")
-        st_names.append(f"({lean_str(e['func'])}, prog_{lname}, {e['k']}, {e['ret']}, {'true' if e['expect_safe'] else 'false'})")
-    out.append("/-- translator self-test: (pattern, program, inputs, result variable, must the checker accept it) -/")
-    out.append("def selftest : List (String × Prog × Nat × Nat × Bool) := [\n  " + ",\n  ".join(st_names) + "]\n")
+        st_names.append(f"({lean_str(e['func'])}, prog_{lname}, {e['k']}, [{', '.join(map(str, e['ret']))}], "
+                        f"{'true' if e['expect_safe'] else 'false'})")
+    out.append("/-- translator self-test: (pattern, program, input buffers, slots of the result, must the checker accept it) -/")
+    out.append("def selftest : List (String × Prog × Nat × List Nat × Bool) := [\n  " + ",\n  ".join(st_names) + "]\n")
     rep["selftest_patterns"] = len(st_names)
     out.append("def allEntries : List Entry := [" + ", ".join("entry_" + n for n in names) + "]\n")
     out.append("def allMeta : List FuncMeta := [" + ", ".join("meta_" + n for n in names) + "]\n")
